@@ -16,7 +16,7 @@
 //
 // Answer of a logic op:  <res>|<runs>|<when>|<flags>
 //
-//	res    ok | err
+//	res    ok | ok:<LastScheduled passed to Schedule, seconds (after NewSchedule's alignment)> | err
 //	runs   Execute calls STARTED during the op, per id in call order, ids ascending:  id:scheduledForMs:runAtMs
 //	when   TreeScheduler.When() after the scheduler went quiescent, ms (or - for the zero time)
 //	flags  c<0|1> (an Execute of an id overlapped another Execute of the same id)
@@ -242,6 +242,30 @@ func (c *runner) settle() {
 	}
 }
 
+// advance moves the mock clock to now+d without ever changing "now" while the scheduler goroutine
+// runs: clock.Mock.Add fires a timer, sleeps 1 ms and then jumps to its target, so a scheduler that
+// is still computing `until := when.Sub(Now())` would re-arm its timer relative to a different now
+// (an artefact of the mock; real time does not jump).  The clock is therefore stepped from one
+// reported wake-up time (When()) to the next, waiting for quiescence after each step.
+func (c *runner) advance(d time.Duration) {
+	target := c.mock.Now().Add(d)
+	for i := 0; i < 100000; i++ {
+		c.settle()
+		if waitQuiesce(c.e, c.n) == qSpinning {
+			break
+		}
+		w, now := c.s.When(), c.mock.Now()
+		if !w.IsZero() && w.After(now) && !w.After(target) {
+			c.mock.Add(w.Sub(now))
+			continue
+		}
+		break
+	}
+	if now := c.mock.Now(); target.After(now) {
+		c.mock.Add(target.Sub(now))
+	}
+}
+
 func (c *runner) observe(res string) string {
 	c.settle()
 	c.e.mu.Lock()
@@ -325,7 +349,7 @@ func (c *runner) Op(t []string) string {
 		if err != nil {
 			return c.observe("err")
 		}
-		return c.observe("ok")
+		return c.observe("ok:" + strconv.FormatInt(ts.Unix(), 10))
 	case "rel":
 		if len(t) != 2 {
 			return bad
@@ -346,8 +370,7 @@ func (c *runner) Op(t []string) string {
 		if !ok || d > 3600_000 {
 			return bad
 		}
-		c.settle()
-		c.mock.Add(time.Duration(d) * time.Millisecond)
+		c.advance(time.Duration(d) * time.Millisecond)
 		return c.observe("ok")
 	case "block", "unblock":
 		if len(t) != 2 {
